@@ -18,6 +18,7 @@ import MinizProof.Lemmas.EncDynamic
 import MinizProof.Lemmas.EncStored
 import MinizProof.Lemmas.DeflRle
 import MinizProof.Lemmas.HuffLimit
+import MinizProof.Lemmas.HuffValid
 set_option maxRecDepth 1000000
 open Fin'
 
@@ -359,6 +360,32 @@ theorem length_limiting_restores_a_complete_code (n : List Int) (len max : Nat) 
   · rw [s3, ← List.sum_append, hAB, hcnt]
   · intro hfull
     exact s5 (by rw [hABl, hAB]; exact hfull)
+
+open Model.HuffLimit Spec in
+/-- FROM THE BUILDER'S HISTOGRAM TO THE DECODER'S VERDICT: take the histogram `n` of a complete prefix
+    code (what a Huffman tree over `len ≥ 2` symbols gives), limit it with `enforce_max_code_size` to
+    `max ≤ 15` bits, and let `lens` be ANY assignment of code lengths to symbols (all ≤ 15) that has
+    the limited histogram — `lens` then passes the validity rule the reference decoder applies to every
+    transmitted code (`Spec.codeValid`: Kraft bookkeeping of RFC 1951 / `inftrees.c`, complete code), for
+    every alphabet. (`length_limiting_restores_a_complete_code` + `Lemmas/HuffValid`: the decoder's
+    bookkeeping over a complete histogram never reports over-subscription and ends with nothing left.)
+    That `optimize_table` hands the lengths out with exactly this histogram is checked per run (the
+    reference decoder accepts every emitted code-length set). -/
+theorem code_lengths_after_limiting_are_a_valid_code (k : CodeKind) (n : List Int) (len max : Nat) (h2 : 2 ≤ len)
+    (hmax1 : 1 ≤ max) (hmax : max ≤ 15) (hlen : max + 1 ≤ n.length) (hnn : ∀ x ∈ n, 0 ≤ x)
+    (hcnt : (n.drop 1).sum = len) (hfit : (len : Int) ≤ 2 ^ max) (hfull : kraft (n.drop 1) = 2 ^ (n.length - 1))
+    (lens : Array Nat) (h15 : lens.all (· ≤ 15) = true)
+    (hc : ∀ i, i < 15 → (countLens lens).getD (1 + i) 0 = ((((enforce n len max).drop 1).take max).getD i 0).toNat) :
+    codeValid k lens = true := by
+  obtain ⟨lv, he, hl, hnn', _, _, hcomplete⟩ :=
+    length_limiting_restores_a_complete_code n len max h2 hmax1 hlen hnn hcnt hfit (by rw [hfull]; exact Int.le_refl _)
+  have h1 : (n.take 1).length = 1 := by rw [List.length_take]; omega
+  have hlv : ((enforce n len max).drop 1).take max = lv := by
+    rw [he, List.append_assoc, List.drop_append, h1, Nat.sub_self, List.drop_zero,
+      List.drop_eq_nil_of_le (by omega), List.nil_append, List.take_append, hl, Nat.sub_self, List.take_zero,
+      List.append_nil, List.take_of_length_le (by omega)]
+  rw [hlv] at hc
+  exact complete_histogram_is_valid_upto k lens lv max hmax h15 hl hnn' hc (hcomplete hfull)
 
 open Model.HuffLimit in
 /-- … and a histogram that is already within the limit and not over-full is not touched. -/
